@@ -9,6 +9,7 @@ import Verif.Driver.Codec
 import Verif.Driver.ExecEnv
 import Verif.Driver.LogQLCodec
 import Verif.Driver.MetricCodec
+import Verif.Driver.SyntaxCodec
 import Verif.Gen.Offload
 import Verif.Gen.Prec
 import Verif.Gen.Palette
@@ -171,6 +172,10 @@ def handle (req : Sexp) : Sexp :=
   | some "step", [v, a, b] =>
     (match Flags.parseStep v.toBytes? a.toInt b.toInt with
      | some d => .list [sym "ok", ofInt d]
+     | none => .list [sym "err"])
+  | some "parse", [renv, toks] =>
+    (match Parser.parse (SyntaxCodec.reEnvOf renv) Gen.prec Gen.isLogic (toks.items.map SyntaxCodec.tokOf) with
+     | some e => .list [sym "ok", SyntaxCodec.exprS e]
      | none => .list [sym "err"])
   | _, _ => .list [sym "bad-op"]
 
